@@ -61,6 +61,7 @@ func (w *W) Sock(kind string) mangos.Socket {
 	if err != nil {
 		panic(fmt.Sprintf("NewSocket(%s): %v", kind, err))
 	}
+	w.socks = append(w.socks, s)
 	return s
 }
 
